@@ -8,7 +8,7 @@ from typing import Dict, List, Optional, Tuple
 from ..model import AnalysisError, FuncInfo, dotted
 from ..rules import bind, common
 from ..rules.match import (m_arrcall, m_binop, m_method, product_factors, strip_reshape)
-from ..symex import (T, Evaluator, array_fn, call_parts, const, func_name, getitem, is_const,
+from ..symex import (T, Evaluator, array_fn, call, call_parts, const, match_scan, func_name, getitem, is_const,
                      match_vmap, mk, show, strip_wrappers, substitute, subterms, sym)
 
 ID = "C07"
@@ -124,6 +124,29 @@ def analyse_comb(ctx, fi: FuncInfo) -> Comb:
                 ss.append(("direct", r_))
                 opened_ss = getattr(c, "_opened", [])
                 opened_ss.append((t, r_))
+                c._opened = opened_ss
+    # lax.map(lambda target: searchsorted(ladder, target), z) / lax.map(partial(searchsorted, ladder), z): a sequential map
+    # over the positions -- the same lookup as searchsorted(ladder, z)
+    for t in terms:
+        sc_ = match_scan(t) if t.op == "call" else None
+        if sc_ is None or sc_[0].op != "closure" or not is_const(sc_[1], None):
+            continue
+        x_ = mk("scan_x", sc_[2], 0)
+        try:
+            b_ = strip_wrappers(ev.open_closure(sc_[0], [sc_[1], x_], at_call=t))
+        except AnalysisError:
+            continue
+        y_ = strip_wrappers(b_.args[1]) if b_.op == "tuple" and len(b_.args) == 2 else None
+        if y_ is not None and y_.op == "partial" and len(y_.args) >= 2:
+            continue
+        if y_ is not None and y_.op == "call" and array_fn(y_) == "searchsorted":
+            _, p_, k_ = call_parts(y_)
+            if len(p_) >= 2 and strip_wrappers(p_[1]) is x_ and not any(z_ is x_ for z_ in subterms(p_[0])):
+                whole = call(y_.args[0], p_[0], sc_[2], *p_[2:], *[mk("kw", a_, v_) for a_, v_ in k_.items()])
+                ss = [q_ for q_ in ss if q_[1] is not y_]
+                ss.append(("direct", whole))
+                opened_ss = getattr(c, "_opened", [])
+                opened_ss.append((getitem(t, const(1)), whole))
                 c._opened = opened_ss
     # the comb tooth may be computed in one loop and used in a second pass over the collected indices: loops over the
     # same range are the same iteration space
